@@ -115,6 +115,12 @@ func (s *State) assume(f string) {
 	if len(s.guard) > 0 {
 		f = mkImp(mkAnd(s.guard...), f)
 	}
+	// skip facts repeated shortly before (typing facts of re-loaded fields)
+	for q, i := s.pc, 0; q != nil && i < 24; q, i = q.prev, i+1 {
+		if q.fact == f {
+			return
+		}
+	}
 	s.pc = s.pc.push(f)
 }
 
@@ -164,6 +170,7 @@ func (s *State) heapGet(name, sort string) string {
 	}
 	c := s.eng.declare(name+"@0", sort)
 	s.heap[name] = c
+	s.eng.typingAxiom(c, name)
 	return c
 }
 
@@ -200,6 +207,7 @@ func (s *State) noteWrite(name string, ref ...string) {
 func (s *State) heapHavoc(name, sort string) {
 	c := s.eng.fresh(name+"@h", sort)
 	s.heap[name] = c
+	s.eng.typingAxiom(c, name)
 	s.eng.hvCtr++
 	s.hv = s.eng.hvCtr
 	s.noteWrite(name)
@@ -290,6 +298,7 @@ func (s *State) loadPtr(t types.Type, p string) Val {
 	ls := leavesOf(t)
 	terms := make([]string, len(ls))
 	for i, l := range ls {
+		s.eng.leafTypes["H$"+key+"$"+l.path] = l.typ
 		terms[i] = mkSel(s.heapGet("H$"+key+"$"+l.path, arrSort(l.sort)), p)
 	}
 	v, _ := unflatten(t, terms)
@@ -314,6 +323,7 @@ func (s *State) loadField(t types.Type, p string, fieldPath string, ft types.Typ
 	ls := leavesOf(ft)
 	terms := make([]string, len(ls))
 	for i, l := range ls {
+		s.eng.leafTypes["H$"+key+"$"+fieldPath+l.path] = l.typ
 		terms[i] = mkSel(s.heapGet("H$"+key+"$"+fieldPath+l.path, arrSort(l.sort)), p)
 	}
 	v, _ := unflatten(ft, terms)
@@ -338,6 +348,7 @@ func (s *State) loadElem(et types.Type, ref, idx string) Val {
 	ls := leavesOf(et)
 	terms := make([]string, len(ls))
 	for i, l := range ls {
+		s.eng.leafTypes["M$"+key+"$"+l.path] = l.typ
 		terms[i] = mkSel(mkSel(s.heapGet("M$"+key+"$"+l.path, arrSort(arrSort(l.sort))), ref), idx)
 	}
 	v, _ := unflatten(et, terms)
@@ -363,6 +374,7 @@ func (s *State) backing(et types.Type, ref string) []string {
 	ls := leavesOf(et)
 	out := make([]string, len(ls))
 	for i, l := range ls {
+		s.eng.leafTypes["M$"+key+"$"+l.path] = l.typ
 		out[i] = mkSel(s.heapGet("M$"+key+"$"+l.path, arrSort(arrSort(l.sort))), ref)
 	}
 	return out
@@ -460,4 +472,35 @@ func refsOf(v Val) []string {
 		return out
 	}
 	return nil
+}
+
+// typingAxiom records that every cell of a heap array version holds a value of its leaf type
+// (well-typed heap). The axiom is emitted with every obligation that mentions the symbol.
+func (e *Engine) typingAxiom(sym, name string) {
+	t, ok := e.leafTypes[name]
+	if !ok || t == nil {
+		return
+	}
+	lo, hi, isInt := intRange(t)
+	if !isInt {
+		return
+	}
+	if _, done := e.symAxioms[sym]; done {
+		return
+	}
+	switch {
+	case strings.HasPrefix(name, "M$"):
+		e.symAxioms[sym] = []string{sf("(forall ((r!t Int) (i!t Int)) (! (and (<= %s (select (select %s r!t) i!t)) (<= (select (select %s r!t) i!t) %s)) :pattern ((select (select %s r!t) i!t))))", num(lo), sym, sym, num(hi), sym)}
+	case strings.HasPrefix(name, "H$"):
+		e.symAxioms[sym] = []string{sf("(forall ((r!t Int)) (! (and (<= %s (select %s r!t)) (<= (select %s r!t) %s)) :pattern ((select %s r!t))))", num(lo), sym, sym, num(hi), sym)}
+	}
+}
+
+// innerTypingAxiom: a fresh (Array Int S) holding elements of Go type t.
+func (e *Engine) innerTypingAxiom(sym string, t types.Type) {
+	lo, hi, isInt := intRange(t)
+	if !isInt || t == nil {
+		return
+	}
+	e.symAxioms[sym] = []string{sf("(forall ((i!t Int)) (! (and (<= %s (select %s i!t)) (<= (select %s i!t) %s)) :pattern ((select %s i!t))))", num(lo), sym, sym, num(hi), sym)}
 }
